@@ -1,4 +1,5 @@
 import RactorModel.Model.Admission
+import RactorModel.Model.StopPorts
 import Driver.Common
 
 /-! Driver for the `Admission` model (C02, C07).
@@ -13,6 +14,16 @@ One `step` line = one `Admission.step g (.t tid)`. `rx run` = the receiver deque
 (`recv*`) and, if it met the marker, exits (`setStatus Stopping, rxClose, rxFlush, setStatus
 Stopped`); `rx stop|kill` = `rxStop` followed by the same exit sequence.
 
+Round 4. Sends through `ActorCell::send_serialized` (`z`) and through a `DerivedActorRef` (`v…`) are
+the model's `Op.send` (for `z` the two local boxing steps are taken together with the successful
+`admit.cas`: the serialized path builds its `BoxedMessage` without calling `box_message`). Top-level
+`t<n>` / `t` / `k` ops (`stop(Some("r<n>"))`, `stop(None)`, `kill()`) are steps of
+`Model/StopPorts.lean` (`StopPorts.act`), composed here with the admission model: a thread's
+`op.start` parks it at `port.stop|port.kill`, the next step is the one-shot port operation
+(`cret stop <n|-> ok|refused`); an `rx` op first lets the actor's loop pick by `StopPorts.pick`
+(signal > stop > message) and exits with that reason. `StopPorts.Obs.violations` — proved empty for
+the model (`C07.stop_port_oracle_holds_of_model`) — judges the implementation's own results.
+
 The oracle clauses are evaluated on the implementation's observations only (its words, return
 values, handled sequence, supervisor events and the schedule as executed) at the `end` line.
 -/
@@ -24,6 +35,8 @@ open _root_.Admission Driver
 
 partial def parseOps (cs : List Char) : List Op × List Char :=
   match cs with
+  | 'z' :: rest => more (Op.send [] false false) rest
+  | 'v' :: rest => parseOps ('s' :: rest)
   | 's' :: rest =>
     let (bf, rest) := match rest with
       | 'f' :: r => (true, r)
@@ -56,6 +69,37 @@ partial def countResend : List Op → Nat
 def parseProgs (s : String) : List (List Op) :=
   (s.splitOn ";").map (fun t => (parseOps t.toList).1)
 
+/-- A top-level op of a worker thread: an op of the admission model (`ser`: through
+`send_serialized`), or a request to one of the one-shot ports (`Model/StopPorts`). -/
+inductive XOp where
+  | adm (op : Op) (ser : Bool) (bad : Bool := false)
+  | stop (r : Option Nat)
+  | kill
+  deriving Repr, Inhabited
+
+/-- split a thread program at its top-level commas -/
+def splitTop (cs : List Char) : List (List Char) :=
+  let rec go (cs : List Char) (depth : Nat) (cur : List Char) (acc : List (List Char)) : List (List Char) :=
+    match cs with
+    | [] => (cur.reverse :: acc).reverse
+    | '[' :: r => go r (depth + 1) ('[' :: cur) acc
+    | ']' :: r => go r (depth - 1) (']' :: cur) acc
+    | ',' :: r => if depth == 0 then go r 0 [] (cur.reverse :: acc) else go r depth (',' :: cur) acc
+    | c :: r => go r depth (c :: cur) acc
+  go cs 0 [] []
+
+def parseXOps (t : String) : List XOp :=
+  (splitTop t.toList).filterMap (fun piece =>
+    match piece with
+    | 'k' :: _ => some .kill
+    | 't' :: r => some (.stop (String.ofList r).toNat?)
+    | 'z' :: 'b' :: _ => some (.adm (Op.send [] false false) true true)
+    | 'z' :: _ => some (.adm (Op.send [] false false) true)
+    | _ => (parseOps piece).1.head?.map (fun op => .adm op false))
+
+def admOps (l : List XOp) : List Op :=
+  l.filterMap (fun x => match x with | .adm op _ _ => some op | _ => none)
+
 /-! ### model side -/
 
 def b01 (b : Bool) : String := if b then "1" else "0"
@@ -73,12 +117,27 @@ def threadAt (g : G) (i : Nat) : String :=
 
 def showWord (w : Word) : String := s!"{b01 w.closed} {b01 w.marker} {w.count}"
 
+def showReason : StopPorts.Reason → String
+  | .killed => "killed"
+  | .stop none => "-"
+  | .stop (some n) => s!"r{n}"
+  | .drained => "Drained"
+
+def parseReason? (s : String) : Option StopPorts.Reason :=
+  if s == "killed" then some .killed
+  else if s == "Drained" then some .drained
+  else if s == "-" then some (.stop none)
+  else if s.startsWith "r" then (s.drop 1).toString.toNat?.map (fun n => .stop (some n))
+  else none
+
 /-- The receiver dequeues until it blocks. When it handles a flagged message the handler sends
 one message to its own actor: handler thread `workers + nextH` runs one complete send. -/
 def recvAll (g : G) (workers : Nat) (flagged : List Nat) (nextH : Nat) : Nat → G × Nat
   | 0 => (g, nextH)
   | fuel + 1 =>
-    let g' := step g .recv
+    -- dequeue one item and, if it is a message, start its handler (two `recv` phases: the engine
+    -- runs the actor task to quiescence, so nothing can land in between)
+    let g' := step (step g .recv) .recv
     if g'.sh.handled.length == g.sh.handled.length then (g', nextH)
     else
       match g'.sh.handled.getLast? with
@@ -112,7 +171,16 @@ structure Case where
   rets : List ImplRet := []
   handled : List Nat := []
   exits : List String := []       -- exit reasons seen by rx ops
-  otherExit : Bool := false       -- an `rx stop|kill` was executed
+  otherExit : Bool := false       -- an `rx stop|kill` was executed, or a thread's stop / kill was accepted
+  /-- every stop / kill call of the implementation with its result (epoch 0 = before the exit was
+  seen, 3 = after) -/
+  calls : List StopPorts.Call := []
+  /-- handler starts reported by an `rx` op that began with an accepted request pending -/
+  overPort : Nat := 0
+  /-- an `rx` op reported the actor Stopping / Stopped -/
+  gone : Bool := false
+  /-- ids of the serialized sends whose payload the actor cannot decode (`zb`) -/
+  garbage : List Nat := []
   drainClosed : Bool := false     -- some `drain.close` step was executed
   raced : Bool := false           -- a drain.close was executed while another op was in flight
   line : Nat := 0
@@ -128,6 +196,18 @@ structure St where
   flagged : List Nat := []
   /-- next unused handler thread -/
   nextH : Nat := 0
+  /-- the one-shot ports and the loop's decision (`Model/StopPorts`) -/
+  ps : StopPorts.S := {}
+  /-- remaining top-level ops of each worker -/
+  tops : List (List XOp) := []
+  /-- the port request a worker is parked in front of -/
+  ctl : List (Option XOp) := []
+  /-- the worker's current top-level op goes through `send_serialized` -/
+  serNow : List Bool := []
+  /-- … with an undecodable payload -/
+  badNow : List Bool := []
+  /-- model side: ids of the undecodable messages -/
+  garbage : List Nat := []
   /-- model and implementation already disagreed in this case: the rest of the case is not
   compared any more (one DIFF per case), the oracle still judges the implementation -/
   diverged : Bool := false
@@ -160,15 +240,28 @@ model's ghost `seenOk`); the remaining clauses concern return values the model d
 def oracleEnd (c : Case) (word : Word) (handled : List Nat) (sup : List String) (alive : Bool) : List String :=
   let drained := (sup.filter (· == "Terminated:Drained")).length
   let obs : Obs :=
-    { rets := c.rets.filterMap (fun r => do
+    -- an undecodable serialized message is accepted, consumed at its turn and never reaches `handle`
+    -- (`userHandled`): it is not a message of the actor's type, C02's "handled exactly once" is not owed
+    { rets := (c.rets.filter (fun r => !c.garbage.contains r.id)).filterMap (fun r => do
         let k ← parseKind? r.kind; let res ← parseRes? r.res
-        pure ⟨k, r.id, res, r.late, r.seenOk⟩),
+        pure ⟨k, r.id, res, r.late, r.seenOk.filter (fun i => !c.garbage.contains i)⟩),
       handled := handled, word := word, drainedExits := drained, otherExit := c.otherExit, alive := alive }
   obs.violations ++
   (if c.rets.all (fun r => (parseKind? r.kind).isSome && (parseRes? r.res).isSome) then [] else ["wrong-return"]) ++
   -- C02 (d): a wrong-type send returns InvalidActorType
   (if (c.rets.filter (·.kind == "bad")).all (·.res == "invalidType") then [] else ["bad-accepted"]) ++
-  (if c.drainClosed == word.closed then [] else ["closed-bit-differs"])
+  (if c.drainClosed == word.closed then [] else ["closed-bit-differs"]) ++
+  (if c.garbage.all (fun i => !handled.contains i) then [] else ["undecodable-message-handled"]) ++
+  (if c.garbage.isEmpty || !sup.any (·.startsWith "Failed:") then [] else ["undecodable-message-failed-the-actor"]) ++
+  -- round 4: the one-shot stop / signal ports (`StopPorts.Obs.violations`, proved empty for the model)
+  (let terms := sup.filter (·.startsWith "Terminated:")
+   let exit? := terms.head?.map (fun t => parseReason? (t.drop 11).toString)
+   (match exit? with
+    | some none => ["exit-reason-unknown"]
+    | _ => []) ++
+   (if terms.length ≤ 1 then [] else ["exited-twice"]) ++
+   ({ calls := c.calls, exit := exit?.join, marker := word.marker, handledOverPort := c.overPort,
+      final := true } : StopPorts.Obs).violations)
 
 /-! ### free-running stress cases (oracle only) -/
 
@@ -211,28 +304,97 @@ def oracleStress (withDrain withStop : Bool) (rs : List SRec) (handled : List Na
 
 /-! ### replay -/
 
+/-- worker `i` is between two top-level ops -/
+def atTop (g : G) (i : Nat) : Bool :=
+  match g.threads[i]? with
+  | some [f] => f.pc == .run
+  | _ => false
+
+/-- the point worker `i` is parked at, port requests included -/
+def threadAtX (st : St) (i : Nat) : String :=
+  match (st.ctl[i]?).join with
+  | some (.stop _) => "port.stop"
+  | some .kill => "port.kill"
+  | some _ => "?"
+  | none =>
+    if i < st.workers && atTop st.g i then
+      (if (st.tops[i]?.getD []).isEmpty then "done" else "op.start")
+    else threadAt st.g i
+
+/-- the serialized send path has no boxing steps: take the model's two local ones at once -/
+def skipBoxing (g : G) (i : Nat) : G :=
+  let isBoxing (g : G) : Bool := match g.threads[i]? with
+    | some (f :: _) => f.pc == .box || f.pc == .boxing
+    | _ => false
+  let g := if isBoxing g then _root_.Admission.step g (.t i) else g
+  if isBoxing g then _root_.Admission.step g (.t i) else g
+
+/-- The actor task runs to quiescence with a stop / signal pending (or after the marker): the loop
+picks by `StopPorts.pick`, `post_stop` completes, the ports are dropped. -/
+def psExit (ps : StopPorts.S) : StopPorts.S :=
+  [StopPorts.Act.poll true, .poll true, .dropPorts].foldl StopPorts.act ps
+
+def implCalls (c : Case) (iw : List String) : Case :=
+  let rec go (c : Case) : List String → Case
+    | "cret" :: k :: r :: res :: rest =>
+      let acc := res == "ok"
+      go { c with calls := c.calls ++ [⟨k == "kill", if k == "kill" then none else r.toNat?, acc, if c.gone then 3 else 0⟩],
+                  otherExit := c.otherExit || acc } rest
+    | _ :: rest => go c rest
+    | [] => c
+  go c iw
+
 def step1 (st : St) (op impl : String) : St × StepOut :=
   let c := { st.c with line := st.c.line + 1 }
   let st := { st with c := c }
   match words op with
   | ["case", progs] =>
-    let ps := parseProgs progs
+    let xs := (progs.splitOn ";").map parseXOps
+    let ps := xs.map admOps
     -- one extra thread per flagged send: it performs the handler's send to its own actor
     let h := (ps.map countResend).foldl (· + ·) 0
     let g := init (ps ++ List.replicate h [Op.send [] false false])
-    let ats := ",".intercalate ((List.range ps.length).map (threadAt g))
-    ({ g := g, c := { line := 0 }, exitReason := "-", diverged := false, workers := ps.length },
-      { model := s!"ok at={ats}" })
+    let st' : St := { g := g, c := { line := 0 }, exitReason := "-", diverged := false, workers := ps.length,
+                      tops := xs, ctl := xs.map (fun _ => none), serNow := xs.map (fun _ => false),
+                      badNow := xs.map (fun _ => false) }
+    let ats := ",".intercalate ((List.range ps.length).map (threadAtX st'))
+    (st', { model := s!"ok at={ats}" })
   | "step" :: tid :: point :: opt =>
     match tid.toNat? with
     | none => (st, { model := "bad-op" })
     | some i =>
-      let pre := threadAt st.g i
+      let pre := threadAtX st i
       let preId : Option Nat := match st.g.threads[i]? with
         | some (f :: _) => some f.id
         | _ => none
-      let g' := _root_.Admission.step st.g (.t i)
-      let flagged := match st.g.threads[i]? with
+      -- which kind of step is this?  a port request | the `op.start` of a port request | a step of
+      -- the admission model (popping the worker's next top-level op when it starts one)
+      let pending := (st.ctl[i]?).join
+      let top := atTop st.g i && i < st.workers
+      let next : Option XOp := if top then (st.tops[i]?.getD []).head? else none
+      let (admStep, st, cretS) : Bool × St × String :=
+        match pending with
+        | some (.stop r) =>
+          let ps' := StopPorts.act st.ps (.stop r)
+          let acc := (ps'.calls.getLast?.map (·.accepted)).getD false
+          (false, { st with ps := ps', ctl := st.ctl.set i none },
+            s!" cret stop {match r with | some n => toString n | none => "-"} {if acc then "ok" else "refused"}")
+        | some .kill =>
+          let ps' := StopPorts.act st.ps .kill
+          let acc := (ps'.calls.getLast?.map (·.accepted)).getD false
+          (false, { st with ps := ps', ctl := st.ctl.set i none }, s!" cret kill - {if acc then "ok" else "refused"}")
+        | _ =>
+          match next with
+          | some (.adm _ ser bad) =>
+            (true, { st with tops := st.tops.set i ((st.tops[i]?.getD []).drop 1), serNow := st.serNow.set i ser,
+                             badNow := st.badNow.set i bad,
+                             garbage := if bad then st.g.sh.nextId :: st.garbage else st.garbage }, "")
+          | some x =>
+            (false, { st with tops := st.tops.set i ((st.tops[i]?.getD []).drop 1), ctl := st.ctl.set i (some x) }, "")
+          | none => (true, st, "")
+      let g' := if admStep then _root_.Admission.step st.g (.t i) else st.g
+      let g' := if admStep && (st.serNow[i]?.getD false) then skipBoxing g' i else g'
+      let flagged := if !admStep then st.flagged else match st.g.threads[i]? with
         | some (f :: _) =>
           (match f.pc, f.ops with
            | .run, .send _ _ true :: _ => st.g.sh.nextId :: st.flagged
@@ -241,14 +403,14 @@ def step1 (st : St) (op impl : String) : St × StepOut :=
         | _ => st.flagged
       let st := { st with flagged := flagged }
       let newRets := g'.sh.rets.drop st.g.sh.rets.length
-      let retS := String.join (newRets.map (fun r => " " ++ showRet r))
+      let retS := String.join (newRets.map (fun r => " " ++ showRet r)) ++ cretS
       let idOk := match opt with
         | [w] => (match parseKV w "id" with
                   | some v => v.toNat? == preId
                   | none => true)
         | _ => true
       let prefixS := (if pre == point then "" else s!"model-at={pre} ") ++ (if idOk then "" else "model-id-differs ")
-      let model := s!"{prefixS}{showWord g'.sh.word} st={g'.sh.status} at={threadAt g' i}{retS}"
+      let model := s!"{prefixS}{showWord g'.sh.word} st={g'.sh.status} at={threadAtX { st with g := g' } i}{retS}"
       -- implementation-side bookkeeping
       let iw := words impl
       let implClosed := iw.head? == some "1"
@@ -258,12 +420,13 @@ def step1 (st : St) (op impl : String) : St × StepOut :=
           | [w] => (match (parseKV w "id").bind (·.toNat?) with
                     | some id =>
                       let oks := (c.rets.filter (fun r => r.kind == "send" && r.res == "ok")).map (·.id)
-                      { c with starts := (id, c.closed, c.line, oks) :: c.starts }
+                      { c with starts := (id, c.closed, c.line, oks) :: c.starts,
+                               garbage := if (st.badNow[i]?.getD false) then id :: c.garbage else c.garbage }
                     | none => c)
           | _ => c
         else c
       let inflight := (List.range st.workers).any (fun k =>
-        k != i && !(["op.start", "done"].contains (threadAt st.g k)))
+        k != i && !(["op.start", "done"].contains (threadAtX st k)))
       let c := if point == "drain.close" then { c with drainClosed := true, raced := c.raced || inflight } else c
       let c := (parseRets iw).foldl (fun c (k, id, r) =>
         let (late, sl, oks) := match c.starts.find? (·.1 == id) with
@@ -272,31 +435,52 @@ def step1 (st : St) (op impl : String) : St × StepOut :=
         let (late, sl, oks) := if k == "send" then (late, sl, oks) else (false, c.line, [])
         { c with rets := c.rets ++ [{ kind := k, id := id, res := r, late := late, seenOk := oks, startLine := sl, retLine := c.line }] }) c
       let c := { c with closed := implClosed }
+      let c := implCalls c iw
       ({ st with g := g', c := c }, { model := model })
   | ["rx", what] =>
     let alive := st.g.sh.rxOpen
     let g0 := st.g
-    let (g1, reason, nextH) :=
-      if !alive then (g0, "-", st.nextH)
-      else if what == "run" then
-        let (g, nh) := recvAll g0 st.workers st.flagged st.nextH (2 * g0.sh.queue.length + 2 * st.flagged.length + 2)
-        if g.sh.rxStopped then (exitSeq.foldl _root_.Admission.step g, "Drained", nh) else (g, "-", nh)
-      else
+    -- `rx stop|kill`: the controller's own request to the one-shot port first
+    let ps0 := if what == "stop" then StopPorts.act st.ps (.stop none)
+               else if what == "kill" then StopPorts.act st.ps .kill else st.ps
+    let accS := if what == "run" then "" else s!" acc={b01 ((ps0.calls.getLast?.map (·.accepted)).getD false)}"
+    -- what the biased select finds when the actor task runs
+    let portPending := ps0.sigVal || ps0.stopVal.isSome
+    let (g1, ps1, reason, nextH) :=
+      if !alive then (g0, ps0, "-", st.nextH)
+      else if portPending then
         let g := _root_.Admission.step g0 .rxStop
-        (exitSeq.foldl _root_.Admission.step g, if what == "kill" then "killed" else "-", st.nextH)
+        let ps1 := psExit ps0
+        (exitSeq.foldl _root_.Admission.step g, ps1, (ps1.phase.exit?.map showReason).getD "?", st.nextH)
+      else
+        let (g, nh) := recvAll g0 st.workers st.flagged st.nextH (2 * g0.sh.queue.length + 2 * st.flagged.length + 2)
+        if g.sh.rxStopped then
+          (exitSeq.foldl _root_.Admission.step g, psExit { ps0 with closed := true, marker := true, queue := [.drain] },
+            "Drained", nh)
+        else (g, ps0, "-", nh)
     let exited := alive && !g1.sh.rxOpen
-    let newH := g1.sh.handled.drop g0.sh.handled.length
+    let newH := userHandled st.garbage (g1.sh.handled.drop g0.sh.handled.length)
     let selfRets := g1.sh.rets.drop g0.sh.rets.length
     let selfS := if selfRets.isEmpty then "-" else ",".intercalate (selfRets.map (fun r => s!"{r.id}:{showRes r.res}"))
-    let model := s!"handled={showNats newH} exit={if exited then reason else "-"} st={g1.sh.status} self={selfS}"
+    let model := s!"handled={showNats newH} exit={if exited then reason else "-"} st={g1.sh.status} self={selfS}{accS}"
     -- implementation side
     let iw := words impl
     let implH := (iw.findSome? (parseKV · "handled")).bind natList? |>.getD []
     let implExit := (iw.findSome? (parseKV · "exit")).getD "-"
     let c := st.c
+    -- the controller's own request and its result
+    let implAcc := (iw.findSome? (parseKV · "acc")) == some "1"
+    let c := if what == "run" then c else
+      { c with calls := c.calls ++ [⟨what == "kill", none, implAcc, if c.gone then 3 else 0⟩] }
+    -- messages handled although an accepted request was pending when the actor task ran
+    let pendingImpl := !c.gone && c.calls.any (·.accepted)
+    let implSt := ((iw.findSome? (parseKV · "st")).bind (·.toNat?)).getD 0
     let c := { c with handled := c.handled ++ implH,
+                      overPort := c.overPort + (if pendingImpl then implH.length else 0),
                       exits := if implExit == "-" then c.exits else c.exits ++ [implExit],
-                      otherExit := c.otherExit || (what != "run") }
+                      gone := c.gone || implSt ≥ stStopping,
+                      -- a refused stop / kill has no effect: only an accepted one excuses unhandled messages
+                      otherExit := c.otherExit || (what != "run" && implAcc) }
     -- the handler's sends to its own actor: complete sends that start and return on this line
     let implSelf : List (Nat × String) := match iw.findSome? (parseKV · "self") with
       | some "-" => []
@@ -309,11 +493,17 @@ def step1 (st : St) (op impl : String) : St × StepOut :=
       let oks := (c.rets.filter (fun r => r.kind == "send" && r.res == "ok")).map (·.id)
       { c with rets := c.rets ++ [{ kind := "send", id := id, res := r, late := c.closed, seenOk := oks, startLine := c.line, retLine := c.line }],
                raced := c.raced || c.drainClosed }) c
-    ({ st with g := g1, c := c, exitReason := if exited then reason else st.exitReason, nextH := nextH }, { model := model })
+    -- round 4: the actor task ran until it blocked, the actor is still alive and no stop / kill was
+    -- accepted so far: every send that has returned Ok by now must have been handled by now
+    let quietOrc := if implSt < stDraining + 1 && !c.gone && !c.calls.any (·.accepted) then
+        quietViolations ((c.rets.filter (fun r => r.kind == "send" && r.res == "ok" && !c.garbage.contains r.id)).map (·.id)) c.handled
+      else []
+    ({ st with g := g1, ps := ps1, c := c, exitReason := if exited then reason else st.exitReason, nextH := nextH },
+      { model := model, oracle := quietOrc })
   | "end" :: _ =>
     let g := st.g
     let sup := if g.sh.rxOpen then "Started" else s!"Started,Terminated:{st.exitReason}"
-    let model := s!"word={showWord g.sh.word} st={g.sh.status} handled={showNats g.sh.handled} sup={sup} alive={b01 g.sh.rxOpen}"
+    let model := s!"word={showWord g.sh.word} st={g.sh.status} handled={showNats (userHandled st.garbage g.sh.handled)} sup={sup} alive={b01 g.sh.rxOpen}"
     -- oracle on the implementation's observations
     let iw := words impl
     let orc := match iw with
@@ -326,7 +516,7 @@ def step1 (st : St) (op impl : String) : St × StepOut :=
           o ++ (if st.c.handled == hs then [] else ["handled-reports-differ"])
         | _, _, _, _, _ => ["unparsable"]
       | _ => ["unparsable"]
-    (st, { model := model, oracle := orc, nontrivial := st.c.raced || st.c.otherExit })
+    (st, { model := model, oracle := orc, nontrivial := st.c.raced || st.c.otherExit || st.c.calls.length ≥ 2 })
   | "stress" :: _ :: opts =>
     let iw := words impl
     let flag (k : String) : Bool := (opts.findSome? (parseKV · k)) == some "1"
@@ -337,7 +527,21 @@ def step1 (st : St) (op impl : String) : St × StepOut :=
       | _ => none
     let sup := ((iw.findSome? (parseKV · "sup")).getD "").splitOn ","
     let exited := (iw.findSome? (parseKV · "exited")) == some "1"
-    let orc := oracleStress (flag "drain") (flag "stop") rs handled drain sup exited
+    -- round 4: stoppers / a killer racing free-running; judged by the epoch-free port oracle
+    let calls : List StopPorts.Call := match (iw.findSome? (parseKV · "calls")) with
+      | some "-" => []
+      | some v => (v.splitOn ",").filterMap (fun (e : String) => match e.splitOn ":" with
+          | [k, r, res] => some ⟨k == "kill", r.toNat?, res == "ok", 0⟩
+          | _ => none)
+      | none => []
+    let terms := sup.filter (·.startsWith "Terminated:")
+    let exit? := terms.head?.map (fun t => parseReason? (t.drop 11).toString)
+    let portOrc :=
+      (match exit? with | some none => ["exit-reason-unknown"] | _ => []) ++
+      (if terms.length ≤ 1 then [] else ["exited-twice"]) ++
+      ({ calls := calls, exit := exit?.join, marker := flag "drain", handledOverPort := 0,
+         final := !calls.isEmpty } : StopPorts.Obs).freeViolations
+    let orc := oracleStress (flag "drain") (flag "stop") rs handled drain sup exited ++ portOrc
     -- no model replay: free-running threads are judged by the oracle only
     (st, { model := impl, oracle := orc, nontrivial := flag "drain" && rs.any (·.res != "ok") && rs.any (·.res == "ok") })
   | _ => (st, { model := "bad-op" })
